@@ -347,6 +347,41 @@ def scripted(order, fallback=None):
     return choose
 
 
+def scripted_phases(order):
+    """Follow a client order produced by TLC from the design model (CacheConcPlan).  One entry of the order is
+    one step of the MODEL (create file, close file, BEGIN, SELECT, COMMIT, cleanup, read row, open file); the
+    real code takes several boundary steps for some of them (mkdir, write chunks, rmdir ...), so an entry is
+    consumed only when the running client reaches a step that starts a new model step."""
+    it = iter(order)
+    cur = [None]
+    BOUNDARY = ('call', 'start')
+
+    def new_model_step(c):
+        p = c.pending
+        if p is None:
+            return True
+        kind, desc = p[0], p[1]
+        if kind in BOUNDARY:
+            return True
+        if kind == 'sql':
+            return desc.startswith('BEGIN') or desc.startswith('COMMIT') or desc.startswith('ROLLBA') or desc.startswith('SELECT')
+        if kind == 'file':
+            return desc in ('fcreate', 'fclose', 'fopen', 'fremove')
+        return True
+
+    def choose(enabled, sched):
+        ids = [c.cid for c in enabled]
+        if cur[0] in ids and not new_model_step(enabled[ids.index(cur[0])]):
+            return enabled[ids.index(cur[0])]
+        for cid in it:
+            if cid in ids:
+                cur[0] = cid
+                return enabled[ids.index(cid)]
+        cur[0] = ids[0]
+        return enabled[0]
+    return choose
+
+
 def random_strategy(rng, stickiness=0.5):
     last = [None]
 
